@@ -71,7 +71,12 @@ Sc3 == One(AddNodes(Sc2, "c1", 4))                            \* second chunk em
 Sc4 == One(MigrateSlots(Sc3, "c1"))                           \* mid scale-out 4 -> 8
 Sc5 == One(AddCluster(Sc1, "c1", 8))                          \* two chunks, stable (scale-in candidates)
 Sc6 == One(ScaleDown(Sc5, "c1", 4))                           \* mid scale-in 8 -> 4
+Sc7 == One(AddCluster(Sc1, "c1", 12))                         \* three chunks, stable
+Sc8 == One(ScaleDown(Sc7, "c1", 4))                           \* mid scale-in 12 -> 4: two chunks drain
 Scenario(k) == CASE k = 1 -> Sc1 [] k = 2 -> Sc2 [] k = 3 -> Sc3 [] k = 4 -> Sc4 [] k = 5 -> Sc5 [] k = 6 -> Sc6
+                 [] k = 7 -> Sc7 [] k = 8 -> Sc8
+ScenAll == 1..8
+ScenScaleIn == {7, 8}
 
 NoEvent == [op |-> "Init", args |-> [ordered |-> Ordered], res |-> "OK", out |-> [replaced |-> FALSE]]
 
